@@ -154,7 +154,7 @@ Proof.
     split; [|apply evolves_store_eq; reflexivity].
     split; [eapply InvS_frame; [|exact I]; core|eapply InvP_frame; [| |exact P]; [core|side]].
   - (* Metrics *)
-    destruct (find_trial t (w_trials w)), (db_get t (w_db w)); try (split; [split; assumption|apply evolves_refl]).
+    destruct (find_trial t (w_trials w)); [|split; [split; assumption|apply evolves_refl]].
     split; [|apply evolves_store_eq; reflexivity].
     split; [eapply InvS_frame; [|exact I]; core|eapply InvP_frame; [| |exact P]; [core|side]].
   - (* EarlyStop *)
